@@ -56,6 +56,7 @@ class Opts:
         self.launch_names = list(vocab.KERNEL_LAUNCHES) + list(vocab.UNLISTED_LAUNCHES)
         self.device_sync = True
         self.event_sync = False  # cudaEventSynchronize + Event Sync record (stream -1)
+        self.cuda_events = False  # cudaEventRecord / cudaStreamWaitEvent / cudaEventSynchronize with wait_on_* args
         self.lead_op = False  # first file entry is a host operator on its own thread at a drawn (possibly late) time
         self.ensure_kernel = False  # every rank has at least one linked kernel launch
         self.kdurs = [1, 2, 3, 4, 7, 12]
@@ -113,6 +114,13 @@ def leaf_sync(draw, o: Opts, streams: List[int]) -> Dict[str, Any]:
 
 
 @st.composite
+def leaf_event(draw, o: Opts, streams: List[int]) -> Dict[str, Any]:
+    kind = pick(draw, ["record", "record", "wait", "esync"])
+    return {"t": "cuevent", "kind": kind, "stream": pick(draw, streams), "pre": pick(draw, SMALL), "dur": pick(draw, [1, 1, 2]),
+            "lead": pick(draw, [0, 0, 1]), "tail": pick(draw, [0, 0, 1])}
+
+
+@st.composite
 def leaf_rt(draw, o: Opts) -> Dict[str, Any]:
     return {"t": "rt", "name": pick(draw, vocab.NONLAUNCH_RUNTIME), "pre": pick(draw, SMALL),
             "dur": pick(draw, DUR + ([0] if o.allow_zero_call else [])), "corr": pick(draw, [True, True, False])}
@@ -137,7 +145,8 @@ def op_node(draw, o: Opts, streams: List[int], depth: int, names: Optional[List[
 def body(draw, o: Opts, streams: List[int], depth: int) -> List[Dict[str, Any]]:
     n = pick(draw, [0, 1, 1, 2, 2, 3] if depth > 0 else list(range(1, o.max_top + 1)))
     out = []
-    kinds = ["launch"] * o.w_launch + ["sync"] * o.w_sync + ["rt"] * o.w_rt + ["op"] * o.w_op + ["zero"] * o.p_zero_op
+    kinds = ["launch"] * o.w_launch + ["sync"] * o.w_sync + ["rt"] * o.w_rt + ["op"] * o.w_op + ["zero"] * o.p_zero_op + \
+        (["cuevent"] * 2 if o.cuda_events else [])
     for _ in range(n):
         k = pick(draw, kinds)
         if k == "launch":
@@ -146,6 +155,8 @@ def body(draw, o: Opts, streams: List[int], depth: int) -> List[Dict[str, Any]]:
             out.append(draw(leaf_sync(o, streams)))
         elif k == "rt":
             out.append(draw(leaf_rt(o)))
+        elif k == "cuevent":
+            out.append(draw(leaf_event(o, streams)))
         elif k == "zero":
             out.append({"t": "op", "name": pick(draw, vocab.CPU_OPS), "cat": "cpu_op", "pre": pick(draw, SMALL), "post": 0,
                         "min": 0, "kids": []})
@@ -237,6 +248,8 @@ class Sim:
         self.dev = rank % 8
         self.hpid = 5000 + rank
         self.stream_free: Dict[int, int] = {}
+        self.stream_ready: Dict[int, int] = {}  # earliest start imposed on a stream by a cudaStreamWaitEvent
+        self.last_record: Optional[Dict[str, int]] = None  # most recent cudaEventRecord: corr id, stream, time its work is done
         self.corr = 1000 * (rank + 1) if corr_base is None else corr_base + 40 * rank
         self.ext = 0
         self.host: Dict[int, List[Dict[str, Any]]] = {}
@@ -283,6 +296,8 @@ class Sim:
             k_start = ts + node["delay"]
             if s in self.stream_free:
                 k_start = max(k_start, self.stream_free[s] + node["kgap"])
+            if node["fault"] != "no_kernel" and s in self.stream_ready:
+                k_start = max(k_start, self.stream_ready.pop(s))
             k_end = k_start + node["kdur"]
             fault = node["fault"]
             if fault != "no_launch":
@@ -296,6 +311,32 @@ class Sim:
                     args["bytes"] = node["bytes"]
                     args["memory bandwidth (GB/s)"] = node["bw"]
                 self._dev(vocab.device_cat(node["kname"]), node["kname"], s, k_start, k_end, args)
+            return end_call
+        if t == "cuevent":
+            s = node["stream"]
+            corr = self._next_corr()
+            end_call = ts + node["dur"]
+            if node["kind"] == "record" or self.last_record is None:
+                self._host(tid, "cuda_runtime", "cudaEventRecord", ts, end_call, {"correlation": corr})
+                self.last_record = {"corr": corr, "stream": s, "done": self.stream_free.get(s, ts)}
+                return end_call
+            rec = self.last_record
+            if node["kind"] == "wait":
+                if s == rec["stream"]:
+                    s = s + 1  # wait on another stream than the one the event was recorded on
+                self._host(tid, "cuda_runtime", "cudaStreamWaitEvent", ts, end_call, {"correlation": corr})
+                self.stream_ready[s] = max(self.stream_ready.get(s, 0), rec["done"])
+                self._dev("cuda_sync", "Stream Wait Event", s, ts + node["lead"], ts + node["lead"],
+                          {"cuda_sync_kind": "Stream Wait Event", "wait_on_stream": rec["stream"], "wait_on_cuda_event_record_corr_id": rec["corr"],
+                           "wait_on_cuda_event_id": 1, "stream": s, "correlation": corr})
+                return end_call
+            rec_start = ts + node["lead"]
+            rec_end = max(rec_start, rec["done"])
+            end_call = max(rec_end + node["tail"], end_call)
+            self._host(tid, "cuda_runtime", "cudaEventSynchronize", ts, end_call, {"correlation": corr})
+            self._dev("cuda_sync", "Event Sync", -1, rec_start, rec_end,
+                      {"cuda_sync_kind": "Event Sync", "wait_on_stream": rec["stream"], "wait_on_cuda_event_record_corr_id": rec["corr"],
+                       "wait_on_cuda_event_id": 1, "stream": -1, "correlation": corr})
             return end_call
         if t == "sync":
             s = node["stream"]
